@@ -153,9 +153,9 @@ func genC18(verifSeed int64, tier string, idx int) *core.Scenario {
 	}
 	d := serialisableDoc(r, "c18", 3)
 	sp.Docs = append(sp.Docs, docToB64(d))
-	b, err := renderWith(c18RealFormats[r.Intn(3)], d, 2)
+	b, err := gen.RenderSafe(c18RealFormats[r.Intn(3)], d, 2)
 	if err != nil {
-		panic(err)
+		b = repoFile("bom-1.4.json")
 	}
 	sp.Streams = append(sp.Streams, b64(b))
 	wopts := []string{"format", "render", "serialize", "fmtopts", "storeopts", "drvopts"}
@@ -561,6 +561,9 @@ func (env *c18env) mkOp(rec *opRec) func() string {
 			if real {
 				t.probes["write-on-instance-with-own-format"]++
 				if err != nil {
+					if _, derr := gen.RenderSafe(want, env.doc, 2); derr != nil {
+						return "err-driver" // the driver itself refuses this document: not a matter of configuration
+					}
 					t.violate("leak:writer:Format:write-failed", fmt.Sprintf("writer built by call #%d with format %s failed to write: %v", in.call, want, err))
 					return "err"
 				}
@@ -590,6 +593,9 @@ func (env *c18env) mkOp(rec *opRec) func() string {
 			err := in.w.WriteStreamWithOptions(env.doc, s, &writer.Options{Format: formats.Format(op.F),
 				RenderOptions: &native.RenderOptions{Indent: op.I}, SerializeOptions: &native.SerializeOptions{}})
 			if err != nil {
+				if _, derr := gen.RenderSafe(op.F, env.doc, op.I); derr != nil {
+					return "err-driver" // the driver itself refuses this document: not a matter of configuration
+				}
 				t.violate("leak:writer:Format:per-call", fmt.Sprintf("per-call format %s on writer #%d failed: %v", op.F, in.call, err))
 				return "err"
 			}
